@@ -1,14 +1,14 @@
 #!/bin/bash
 # usage: build_c20caps.sh <repo dir> <output binary> <scratch dir for the overlay files>
 # Second build of cmd/c20 from the same tree with the three DEX batch capacities of lib/certificate.go overlaid
-# (5 000 / 5 000 / 10 000 -> 2 / 2 / 2): the "does not fit in the batch" branches are out of reach of a bounded search
+# (5 000 / 5 000 / 10 000 -> 2 / 2 / 2) and the per-block settlement cap (250 -> 1): the "does not fit in the batch" branches are out of reach of a bounded search
 # otherwise. Every other line of the file is what the tree holds; if the constants are not found the build is skipped
 # (cmd/c20 then reports the small-caps searches as not started). Run from the harness directory.
 REPO="$1"; OUT="$2"; SCR="$3"
 f="$REPO/lib/certificate.go"
-grep -q 'MaxDepositsPerDexBatch  = 5_000' "$f" && grep -q 'MaxWithdrawsPerDexBatch = 5_000' "$f" && grep -q 'MaxOrdersPerDexBatch    = 10_000' "$f" || { rm -f "$OUT"; exit 0; }
+grep -q 'MaxDepositsPerDexBatch  = 5_000' "$f" && grep -q 'MaxWithdrawsPerDexBatch = 5_000' "$f" && grep -q 'MaxOrdersPerDexBatch    = 10_000' "$f" && grep -q 'MaxOrdersSettledPerBlock = 250' "$f" || { rm -f "$OUT"; exit 0; }
 mkdir -p "$SCR"
-sed 's/MaxDepositsPerDexBatch  = 5_000/MaxDepositsPerDexBatch  = 2/; s/MaxWithdrawsPerDexBatch = 5_000/MaxWithdrawsPerDexBatch = 2/; s/MaxOrdersPerDexBatch    = 10_000/MaxOrdersPerDexBatch    = 2/' "$f" > "$SCR/certificate.go"
+sed 's/MaxDepositsPerDexBatch  = 5_000/MaxDepositsPerDexBatch  = 2/; s/MaxWithdrawsPerDexBatch = 5_000/MaxWithdrawsPerDexBatch = 2/; s/MaxOrdersPerDexBatch    = 10_000/MaxOrdersPerDexBatch    = 2/; s/MaxOrdersSettledPerBlock = 250/MaxOrdersSettledPerBlock = 1/' "$f" > "$SCR/certificate.go"
 rep="\"$f\":\"$SCR/certificate.go\""
 if grep -q 'capacity := 20_000' "$REPO/lib/crypto/key_batch.go" 2>/dev/null; then
   sed 's/capacity := 20_000/capacity := 64/' "$REPO/lib/crypto/key_batch.go" > "$SCR/key_batch_caps.go"
